@@ -66,13 +66,26 @@ def hdr_field_stores(P):
                 yield fn, ev, l0['field'], fn.path(l0)
 
 
-def link_calls(P):
-    """(fn, event, head path, chunk path) for every jls_core_update_item_head call."""
-    for fn, ev in P.callers().get('jls_core_update_item_head', []):
+def link_calls(P, _callee='jls_core_update_item_head', _head_i=1, _chunk_i=2, _depth=0):
+    """(fn, event, head path, chunk path) for every site that links a chunk: direct calls of
+    jls_core_update_item_head, and calls of wrappers that pass their own parameters straight through
+    (the obligation then sits with the wrapper's callers)."""
+    for fn, ev in P.callers().get(_callee, []):
         a = ev.args
-        if len(a) < 3:
+        if len(a) <= max(_head_i, _chunk_i):
             continue
-        yield fn, ev, fn.path(a[1]), fn.path(a[2])
+        hp, cp = fn.path(a[_head_i]), fn.path(a[_chunk_i])
+        names = [p['name'] for p in fn.params]
+        ca = strip_casts(a[_chunk_i])
+        if ca.get('op') == 'ref' and ca.get('rk') == 'param' and ca['name'] in names and _depth < 3 and \
+                not any(True for _ in fn.calls('jls_raw_wr')):
+            ha = strip_casts(a[_head_i])
+            hi = names.index(ha['name']) if ha.get('op') == 'ref' and ha.get('rk') == 'param' and ha['name'] in names else None
+            if hi is not None and P.callers().get(fn.name):
+                for x in link_calls(P, fn.name, hi, names.index(ca['name']), _depth + 1):
+                    yield x
+                continue
+        yield fn, ev, hp, cp
 
 
 def written_before_link(fn, link_ev, chunk_path):
